@@ -507,17 +507,17 @@ func applyCorruption(c *Case, k corruption, r *Rand) *Case {
 		out.Opts.Args = a
 	case "cli_missing_file":
 		a := append([]string(nil), c.Opts.Args...)
-		found := false
+		// one of the files the command line names (which one: drawn) does not exist
+		var named []string
 		for i := range a {
 			if _, ok := c.Files[a[i]]; ok {
-				delete(out.Files, a[i])
-				found = true
-				break
+				named = append(named, a[i])
 			}
 		}
-		if !found {
+		if len(named) == 0 {
 			return nil
 		}
+		delete(out.Files, named[r.Intn(len(named))])
 		out.Opts.Args = a
 	case "cli_no_reference":
 		a := append([]string(nil), c.Opts.Args...)
